@@ -27,6 +27,24 @@ def digit_pattern(rng, w):
     return rng.bits(w)
 
 
+def window_pair(rng, w):
+    """two digits whose product sits next to a carry boundary of the double-width product (2^(2w-1): the doubled cross
+    product of a squaring has high word 2^w - 1; 2^(2w): high word of the product at its maximum)"""
+    x = rng.bits(w) | (1 << (w - 1))
+    T = 1 << rng.choice([2 * w - 1, 2 * w - 1, 2 * w, 2 * w - 2])
+    y = min((1 << w) - 1, max(1, (T - 1) // x + rng.choice([0, 0, 0, 1])))
+    return (x, y) if rng.chance(1, 2) else (y, x)
+
+
+def window_digits(rng, w, n):
+    """n-digit value whose digits come from window pairs (every cross product a_i*a_j then includes boundary cases)"""
+    x, y = window_pair(rng, w)
+    v = 0
+    for i in range(n):
+        v |= rng.choice([x, y, x, y, (1 << w) - 1, rng.bits(w)]) << (i * w)
+    return v
+
+
 def magnitude(rng, w, maxdigits):
     """non-negative integer with a structured digit pattern and length 0..maxdigits digits"""
     k = rng.below(12)
@@ -37,9 +55,11 @@ def magnitude(rng, w, maxdigits):
     n = 1 + rng.below(maxdigits) if maxdigits > 0 else 0
     if k == 2:
         n = maxdigits
-    style = rng.below(6)
+    style = rng.below(7)
     v = 0
-    if style == 0:        # uniform
+    if style == 6:
+        v = window_digits(rng, w, n)
+    elif style == 0:        # uniform
         v = rng.bits(n * w)
     elif style == 1:      # all ones
         v = (1 << (n * w)) - 1
